@@ -35,6 +35,21 @@ pub enum Corruption {
     SwapLines { a: usize, b: usize },
     /// non-UTF-8 bytes
     Invalid { off: usize },
+    /// a foreign line (comment, rule, pasted text) of `len` characters of `bytes_per_char`-byte
+    /// UTF-8 characters after an ASCII prefix of `prefix` bytes, inserted before line `line`
+    ForeignLine { line: usize, prefix: usize, len: usize, bytes_per_char: u8 },
+    /// the same kind of text spliced into the middle of the file at a byte offset
+    ForeignText { off: usize, len: usize, bytes_per_char: u8 },
+}
+
+fn foreign(len: usize, bytes_per_char: u8) -> String {
+    let ch = match bytes_per_char {
+        1 => '#',
+        2 => 'é',
+        3 => '─',
+        _ => '𝟙',
+    };
+    std::iter::repeat(ch).take(len).collect()
 }
 
 const SECTOR: usize = 512;
@@ -142,6 +157,21 @@ pub fn apply_corruption(img: &mut Vec<u8>, c: &Corruption) -> bool {
                 lines.swap(*a, *b);
                 *img = lines.join(&b'\n');
             }
+        }
+        Corruption::ForeignLine { line, prefix, len, bytes_per_char } => {
+            let mut starts = vec![0usize];
+            for (i, b) in img.iter().enumerate() {
+                if *b == b'\n' && i + 1 < img.len() {
+                    starts.push(i + 1);
+                }
+            }
+            let at = starts.get(*line).copied().unwrap_or(img.len());
+            let text = format!("{}{}\n", "# 12 345 ".chars().cycle().take(*prefix).collect::<String>(), foreign(*len, *bytes_per_char));
+            img.splice(at..at, text.bytes());
+        }
+        Corruption::ForeignText { off, len, bytes_per_char } => {
+            let at = (*off).min(img.len());
+            img.splice(at..at, foreign(*len, *bytes_per_char).bytes());
         }
         Corruption::Invalid { off } => {
             let at = (*off).min(img.len());
@@ -829,6 +859,8 @@ pub fn run_world(w: &World) -> Obs {
 
 pub struct Tier {
     pub sweep: u64,
+    /// exports of 1..10 MiB (block-size dependent behaviour of readers and writers)
+    pub large: u64,
     pub history: u64,
     pub seeded: u64,
     pub corrupt: u64,
@@ -838,9 +870,9 @@ pub struct Tier {
 
 pub fn tier(t: &str) -> Tier {
     if t == "thorough" {
-        Tier { sweep: 480, history: 100_000, seeded: 200_000, corrupt: 300_000, text: 200_000, s5: 10_000 }
+        Tier { sweep: 480, large: 64, history: 100_000, seeded: 200_000, corrupt: 300_000, text: 200_000, s5: 10_000 }
     } else {
-        Tier { sweep: 32, history: 4_000, seeded: 8_000, corrupt: 12_000, text: 8_000, s5: 200 }
+        Tier { sweep: 32, large: 6, history: 4_000, seeded: 8_000, corrupt: 12_000, text: 8_000, s5: 200 }
     }
 }
 
@@ -854,12 +886,12 @@ impl CasePlan {
         Ok(CasePlan { corpus: load_corpus()?, tier: tier(t) })
     }
     pub fn n_cases(&self) -> u64 {
-        self.tier.sweep + self.tier.history + self.tier.seeded + self.tier.corrupt + self.tier.text + self.tier.s5
+        self.tier.sweep + self.tier.large + self.tier.history + self.tier.seeded + self.tier.corrupt + self.tier.text + self.tier.s5
     }
     pub fn family(&self, idx: u64) -> (&'static str, u64) {
         let t = &self.tier;
         let mut i = idx;
-        for (name, n) in [("sweep", t.sweep), ("history", t.history), ("seeded", t.seeded), ("corrupt", t.corrupt), ("text", t.text), ("s5", t.s5)] {
+        for (name, n) in [("sweep", t.sweep), ("large", t.large), ("history", t.history), ("seeded", t.seeded), ("corrupt", t.corrupt), ("text", t.text), ("s5", t.s5)] {
             if i < n {
                 return (name, i);
             }
@@ -990,7 +1022,7 @@ fn draw_corruptions(p: &mut Prng, len: usize, ntokens: usize, nlines: usize, str
     let len1 = len.max(1);
     let mut out = vec![];
     for _ in 0..n {
-        let k = if structured { p.range(8, 15) } else { p.below(12) };
+        let k = if structured { p.range(8, 17) } else { p.below(12) };
         out.push(match k {
             0 | 1 => Corruption::BitFlip { off: p.usize_below(len1), bit: p.below(8) as u8 },
             2 => Corruption::Subst { off: p.usize_below(len1), byte: *p.pick(b"0123456789 \n\tXA\0\xff") },
@@ -1020,6 +1052,13 @@ fn draw_corruptions(p: &mut Prng, len: usize, ntokens: usize, nlines: usize, str
             12 => Corruption::DupLine { line: p.usize_below(nlines.max(1)) },
             13 => Corruption::DelLine { line: p.usize_below(nlines.max(1)) },
             14 => Corruption::SwapLines { a: p.usize_below(nlines.max(1)), b: p.usize_below(nlines.max(1)) },
+            16 => Corruption::ForeignLine {
+                line: p.usize_below(nlines.max(1) + 1),
+                prefix: p.usize_below(12),
+                len: p.range(1, 200) as usize,
+                bytes_per_char: p.range(1, 4) as u8,
+            },
+            17 => Corruption::ForeignText { off: p.usize_below(len1), len: p.range(1, 120) as usize, bytes_per_char: p.range(2, 4) as u8 },
             _ => {
                 if p.chance(1, 2) {
                     Corruption::Invalid { off: p.usize_below(len1) }
@@ -1065,6 +1104,15 @@ fn random_text(p: &mut Prng) -> Vec<u8> {
             2 => s.push_str(&format!("2 1 {} {} {} XOR\n", w(p), w(p), out)),
             3 => s.push_str(&format!("{} 1 {} {} {}\n", p.below(4), w(p), out, p.pick(&["XOR", "AND", "INV", "EQW"]))),
             _ => s.push_str(&format!("2 1 {} {} {} {}\n", w(p), w(p), out, p.pick(&["XOR", "AND", "MAND", "INV"]))),
+        }
+    }
+    if p.chance(1, 4) {
+        let l = foreign(p.range(1, 150) as usize, p.range(1, 4) as u8);
+        if p.chance(1, 2) {
+            s.push_str(&l);
+            s.push('\n');
+        } else {
+            s = format!("{l}\n{s}");
         }
     }
     s.into_bytes()
@@ -1121,6 +1169,20 @@ pub fn make_world(plan: &CasePlan, seed: u64, idx: u64) -> (World, &'static str,
             w.import_plan = draw_read_plan(&mut p, len);
             if p.chance(1, 3) {
                 w.prior = draw_priors(plan, &mut p);
+            }
+        }
+        "large" => {
+            // an export of several MiB, written and read back fault-free or under transparent faults
+            let prog = ProgSpec { name: "large".into(), src: gen::big_program(&mut p), consts: vec![] };
+            w.program = Some(prog);
+            w.dedup = true;
+            if p.chance(1, 2) {
+                for _ in 0..p.range(1, 6) {
+                    w.export_plan.write.insert(p.below(400_000), if p.chance(1, 2) { Act::Short(p.range(1, 5) as usize) } else { Act::Eintr });
+                }
+                for _ in 0..p.range(1, 6) {
+                    w.import_plan.read.insert(p.below(200), if p.chance(1, 2) { Act::Short(p.range(1, 8000) as usize) } else { Act::Eintr });
+                }
             }
         }
         "history" => {
@@ -1537,6 +1599,21 @@ fn run_sweep(base: &World, acc: &mut Acc) {
                 let mut w = base.clone();
                 w.corruptions = vec![Corruption::Subst { off, byte }];
                 go(w, acc);
+            }
+        }
+    }
+    // a foreign line of every length 1..160 (2-, 3- and 4-byte characters, three prefix lengths)
+    // before the first gate line and at the end: any fixed-width handling of a line will meet a
+    // character boundary somewhere in this range
+    let nlines = bytes.iter().filter(|b| **b == b'\n').count();
+    for bytes_per_char in [2u8, 3, 4] {
+        for prefix in [0usize, 1, 2] {
+            for len in 1..=160usize {
+                for line in [4usize.min(nlines), nlines] {
+                    let mut w = base.clone();
+                    w.corruptions = vec![Corruption::ForeignLine { line, prefix, len, bytes_per_char }];
+                    go(w, acc);
+                }
             }
         }
     }
